@@ -33,13 +33,13 @@ inductive ShapeOp where
 def pixelShape (s : ShapeState) : Option (List Nat) := s
 def arrayShape (s : ShapeState) : Option (List Nat) := s.map List.reverse
 
-/-- one assignment on a WCS with `ndim` pixel axes; `pixel_shape` of the wrong length is a
-    `ValueError`, `array_shape` is stored reversed without a length check -/
+/-- one assignment on a WCS with `ndim` pixel axes; a shape of the wrong length is a `ValueError` through either property
+    (`array_shape = v` is `pixel_shape = v[::-1]`) -/
 def shapeStep (ndim : Nat) (s : ShapeState) : ShapeOp → Except Err ShapeState
   | .setPixelShape none => .ok none
   | .setPixelShape (some v) => if v.length = ndim then .ok (some v) else .error .valueErr
   | .setArrayShape none => .ok none
-  | .setArrayShape (some v) => .ok (some v.reverse)
+  | .setArrayShape (some v) => if v.length = ndim then .ok (some v.reverse) else .error .valueErr
 
 /-- rejected assignments leave the state as it was -/
 def shapeStepTotal (ndim : Nat) (s : ShapeState) (op : ShapeOp) : ShapeState :=
